@@ -212,19 +212,36 @@ def main():
             if tier not in mc.get("tiers", ("quick", "thorough")):
                 continue
             t1 = time.time()
-            rc, out = tlc(mc["module"], mc["cfg"], work, workers=mc.get("workers", 8),
-                          timeout=mc.get("timeout", {"quick": 600, "thorough": 3000})[tier] if isinstance(mc.get("timeout"), dict) else mc.get("timeout", 900),
-                          simulate=mc.get("simulate", {}).get(tier) if isinstance(mc.get("simulate"), dict) else mc.get("simulate"),
-                          xmx=mc.get("xmx", "8g"), extra_env=mc.get("env"))
-            st = parse_tlc_stats(out)
+            tmo = mc.get("timeout", {"quick": 600, "thorough": 3000})[tier] if isinstance(mc.get("timeout"), dict) else mc.get("timeout", 900)
+            simarg = mc.get("simulate", {}).get(tier) if isinstance(mc.get("simulate"), dict) else mc.get("simulate")
+            if simarg:
+                # TLC's simulation workers share one random stream for RandomElement (they all generate the same
+                # behaviours), so random walks are run as independent single-worker processes with distinct seeds
+                procs = mc.get("workers", 8)
+
+                def one(k):
+                    return tlc(mc["module"], mc["cfg"], work, workers=1, timeout=tmo,
+                               simulate=simarg + " -seed %d" % ((seed * 7919 + k * 104729 + 17) % (2 ** 31)),
+                               xmx="2g", extra_env=mc.get("env"))
+                with cf.ThreadPoolExecutor(max_workers=procs) as ex:
+                    outs = list(ex.map(one, range(procs)))
+                rc = max(r for r, _ in outs)
+                out = "\n".join(o for _, o in outs)
+                st = {"generated": 0, "distinct": 0, "traces": 0, "mode": "simulate", "processes": procs}
+                for _, o in outs:
+                    s1 = parse_tlc_stats(o)
+                    st["generated"] += s1.get("generated", 0)
+                    st["distinct"] += s1.get("distinct", 0)
+                    st["traces"] += s1.get("traces", 0)
+            else:
+                rc, out = tlc(mc["module"], mc["cfg"], work, workers=mc.get("workers", 8), timeout=tmo,
+                              xmx=mc.get("xmx", "8g"), extra_env=mc.get("env"))
+                st = parse_tlc_stats(out)
             violated = "is violated" in out or "Error: " in out
             timed_out = rc == 124
             sim = bool(mc.get("simulate"))
             if sim and timed_out and not violated:
                 # simulation runs until the outer timeout: that is the normal way to end it
-                m = re.findall(r"Progress: (\d+) states checked, (\d+) traces generated", out)
-                if m:
-                    st = {"generated": int(m[-1][0]), "distinct": int(m[-1][0]), "traces": int(m[-1][1])}
                 timed_out = False
                 rc = 0
             rec = {"module": mc["module"], "cfg": mc["cfg"], "rc": rc, "stats": st,
@@ -247,9 +264,38 @@ def main():
             mc_states += st.get("distinct", 0)
             mc_trans += st.get("generated", 0)
 
-    # ---------------------------------------------------------------- (G/H) drivers
+    # ---------------------------------------------------------------- (G) behaviours generated by the model
+    gen_drivers = []
+    if P.get("scripts") and not replay:
+        sc = P["scripts"]
+        t1 = time.time()
+        procs = 8
+        num = sc["num"][tier]
+
+        def gen(k):
+            return tlc("MC_Node", sc["cfg"], work, workers=1, timeout=900, xmx="2g", extra_env={"MC_SCRIPTS": "1"},
+                       simulate="-simulate num=%d -depth %d -seed %d" % (num, sc.get("depth", 41), (seed * 31 + k * 7919 + 5) % (2 ** 31)))
+        with cf.ThreadPoolExecutor(max_workers=procs) as ex:
+            outs = list(ex.map(gen, range(procs)))
+        spath = os.path.join(work, "scripts.ndjson")
+        nscripts = 0
+        with open(spath, "w") as f:
+            for rc, out in outs:
+                if "is violated" in out or rc not in (0,):
+                    tool_errors.append("script generation: TLC rc=%s %s" % (rc, out[-800:]))
+                for line in out.splitlines():
+                    m = re.match(r'<<"SCRIPT", "(.*)">>\s*$', line)
+                    if m:
+                        f.write(m.group(1).encode("utf8").decode("unicode_escape") + "\n")
+                        nscripts += 1
+        ev["model_scripts"] = nscripts
+        log("[%s] %d behaviours generated by TLC from MC_Node for replay on the real code (%.0fs)" % (pid, nscripts, time.time() - t1))
+        if nscripts:
+            gen_drivers.append({"args": ["replay", "--scripts", spath], "shards": 1})
+
+    # ---------------------------------------------------------------- (H) drivers
     jobs = []
-    drivers = P["drivers"][tier] if not replay else [replay["driver"]]
+    drivers = (P["drivers"][tier] + gen_drivers) if not replay else [replay["driver"]]
     for di, d in enumerate(drivers):
         shards = d.get("shards", 1) if not replay else 1
         for sh in range(shards):
@@ -381,6 +427,7 @@ def main():
         "model_states": mc_states,
         "model_transitions": mc_trans,
         "impl_events": ev["events"],
+        "model_behaviours_replayed_on_impl": ev.get("model_scripts", 0),
         "impl_calls_validated": ev["calls"],
         "conformance_divergences": ev["divergences"],
         "model_transfers": ev["divergences"] == 0,
